@@ -10,7 +10,7 @@ indexing / layout / shape-arithmetic computation traced on placeholders (`Identi
 inlined).  `eval` is the meaning of those ONNX operators on integer-valued N-d index-function tensors
 (`Tensor Int`; booleans are 0/1): `Slice`, `Gather`, `Unsqueeze`, `Squeeze`, `Transpose`, `Reshape(allowzero=1)`,
 `Expand`, `Concat`, `Shape`, `Range`, `Cast`, `Add/Sub/Mul`, `Mod(fmod=0)`, `Equal`, `Where`, `Reduce*`, `Compress(axis=0)`,
-`GatherElements(axis=0)`, `ScatterND`, `CumSum`.  The data-movement
+`GatherElements(axis=0)`, `ScatterND`, `CumSum`, `Trilu`.  The data-movement
 operators do not inspect the elements, so what is proved about them on integer tokens is what ONNX specifies for
 every element type (`T: tensor(...)` of any type); the check repeats the structural comparison for every dtype.
 
@@ -55,6 +55,7 @@ inductive TG where
   | gatherElements (x idx : TG)                      -- GatherElements(axis = 0)
   | scatterND (x idx upd : TG)                       -- ScatterND(reduction = none)
   | cumsum (x axis : TG)                             -- CumSum(exclusive = 0, reverse = 0) on int64
+  | trilu (upper : Bool) (x k : TG)                  -- Trilu on the last two axes
 deriving DecidableEq, Repr, Inhabited
 
 /-! ## operator semantics -/
@@ -219,6 +220,14 @@ def cumsumOp (t : Tensor Int) (axis : Int) : Tensor Int :=
   ⟨t.shape, fun ix =>
     ((List.range (ix.getD ax 0 + 1)).map (fun j => t.get (ix.set ax j))).foldl (fun acc v => C02.wrapS 64 (acc + v)) 0⟩
 
+/-- `Trilu(upper)`: on the last two axes (row `i`, column `j`) keep `j ≥ i + k` (upper) / `j ≤ i + k` (lower), zero the rest. -/
+def triluOp (upper : Bool) (t : Tensor Int) (k : Int) : Tensor Int :=
+  ⟨t.shape, fun ix =>
+    let r := ix.length
+    let i : Int := Int.ofNat (ix.getD (r - 2) 0)
+    let j : Int := Int.ofNat (ix.getD (r - 1) 0)
+    if (if upper then j ≥ i + k else j ≤ i + k) then t.get ix else 0⟩
+
 /-! ## evaluation -/
 
 def TG.eval (env : List (Tensor Int)) : TG → Tensor Int
@@ -247,6 +256,7 @@ def TG.eval (env : List (Tensor Int)) : TG → Tensor Int
   | .gatherElements x i => gatherElementsOp (TG.eval env x) (TG.eval env i)
   | .scatterND x i u => scatterNDOp (TG.eval env x) (TG.eval env i) (TG.eval env u)
   | .cumsum x a => cumsumOp (TG.eval env x) ((TG.eval env a).get [])
+  | .trilu up x k => triluOp up (TG.eval env x) ((TG.eval env k).get [])
 
 /-! ## canonical text (identical to the translator's rendering) -/
 
@@ -284,5 +294,6 @@ def TG.render : TG → String
   | .gatherElements x i => s!"(GatherElements0 {TG.render x} {TG.render i})"
   | .scatterND x i u => s!"(ScatterND {TG.render x} {TG.render i} {TG.render u})"
   | .cumsum x a => s!"(CumSum {TG.render x} {TG.render a})"
+  | .trilu up x k => s!"(Trilu {if up then 1 else 0} {TG.render x} {TG.render k})"
 
 end Ndx.TGraph
